@@ -2,8 +2,9 @@
    Only statements; every proof is `exact <lemma>` (lemmas in Proofs/ChunkProofs.v).
    What these theorems do NOT cover (sampled at run time by harness/prop_C13.py):
    OS scheduling of real threads, numba's threading layer, atomicity of tasks. *)
-From Coq Require Import Arith List Bool Permutation.
+From Coq Require Import Arith List Bool Permutation ZArith.
 From Arim Require Import Model.Chunk Proofs.ChunkProofs Model.MinPlus Proofs.MinPlusProofs.
+From Arim Require Import Model.ChunkND Proofs.ChunkNDProofs.
 Import ListNotations.
 
 (* chunk_array: for every length and every block size >= 1 the slices, in
@@ -58,3 +59,101 @@ Example tiles_example :
    ((2,4),(0,3)); ((2,4),(3,6)); ((2,4),(6,7));
    ((4,5),(0,3)); ((4,5),(3,6)); ((4,5),(6,7))].
 Proof. vm_compute. reflexivity. Qed.
+
+(* ---- chunk_array on n-dimensional shapes, any axis spelling (Model/ChunkND.v) ----
+   chunk_selectors shape b axis = for every selector the code yields (in order), the
+   half-open range it selects on EVERY axis of the shape after numpy's Ellipsis
+   expansion and clipping; None = the code raises.  The three branches of the code
+   (axis 0 / last axis, Ellipsis first / interior axis with slice(None) fillers) are
+   modelled syntactically and resolved, not assumed uniform. *)
+
+(* list(range(ndim))[axis]: a valid axis resolves to a position below ndim, equal to
+   axis or to axis + ndim *)
+Theorem axis_normalised : forall ndim axis ax, normalise_axis ndim axis = Some ax ->
+  ax < ndim /\ (- Z.of_nat ndim <= axis < Z.of_nat ndim)%Z /\
+  (Z.of_nat ax = axis \/ Z.of_nat ax = axis + Z.of_nat ndim)%Z.
+Proof. exact normalise_axis_Some. Qed.
+
+(* (a) the negative and the non-negative spelling of an axis give the same selectors *)
+Theorem nd_axis_spelling_irrelevant : forall shape b axis, (0 <= axis < Z.of_nat (length shape))%Z ->
+  chunk_selectors shape b (axis - Z.of_nat (length shape)) = chunk_selectors shape b axis.
+Proof. exact chunk_selectors_axis_spelling. Qed.
+
+(* (b) every selector has one range per axis and is the full range on every axis other
+   than the requested one *)
+Theorem nd_other_axes_untouched : forall shape b axis ax sels sel k,
+  normalise_axis (length shape) axis = Some ax ->
+  chunk_selectors shape b axis = Some sels -> In sel sels ->
+  length sel = length shape /\
+  (k < length shape -> k <> ax -> nth k sel (0, 0) = (0, nth k shape 0)).
+Proof. exact chunk_selectors_other_axes. Qed.
+
+(* (c) for every block size >= 1 and every valid axis the call succeeds, and along the
+   requested axis the ranges are exactly the 1-D chunks of that axis' length *)
+Theorem nd_requested_axis_is_chunks : forall shape b axis ax, 1 <= b ->
+  normalise_axis (length shape) axis = Some ax ->
+  exists sels, chunk_selectors shape b axis = Some sels /\
+               map (fun sel => nth ax sel (0, 0)) sels = chunks (nth ax shape 0) b.
+Proof. exact chunk_selectors_requested_axis. Qed.
+
+(* (d) whenever the call succeeds, the multi-index sets selected by the yielded
+   selectors are pairwise disjoint and their union is the whole index space *)
+Theorem nd_selectors_partition : forall shape b axis sels,
+  chunk_selectors shape b axis = Some sels ->
+  Permutation (flat_map box_cells sels) (index_space shape) /\ NoDup (flat_map box_cells sels).
+Proof. exact chunk_selectors_partition. Qed.
+
+Theorem nd_selectors_pairwise_disjoint : forall shape b axis sels i j idx,
+  chunk_selectors shape b axis = Some sels -> i < j < length sels ->
+  In idx (box_cells (nth i sels [])) -> ~ In idx (box_cells (nth j sels [])).
+Proof. exact chunk_selectors_pairwise_disjoint. Qed.
+
+Theorem nd_selectors_cover : forall shape b axis sels idx,
+  chunk_selectors shape b axis = Some sels ->
+  (Forall2 lt idx shape <-> exists sel, In sel sels /\ In idx (box_cells sel)).
+Proof. exact chunk_selectors_cover. Qed.
+
+(* meaning of the two index-set functions used above *)
+Theorem box_cells_meaning : forall rs idx,
+  In idx (box_cells rs) <-> Forall2 (fun i r => fst r <= i < snd r) idx rs.
+Proof. exact box_cells_In. Qed.
+
+Theorem index_space_meaning : forall shape idx, In idx (index_space shape) <-> Forall2 lt idx shape.
+Proof. exact index_space_In. Qed.
+
+(* (e) the call raises exactly for a zero block size (ZeroDivisionError) or an axis
+   outside [-ndim, ndim) (IndexError); in particular such an axis is rejected *)
+Theorem nd_rejected_iff : forall shape b axis,
+  chunk_selectors shape b axis = None <->
+  b = 0 \/ (axis < - Z.of_nat (length shape) \/ Z.of_nat (length shape) <= axis)%Z.
+Proof. exact chunk_selectors_None_iff. Qed.
+
+Theorem nd_axis_out_of_range_rejected : forall shape b axis,
+  (axis < - Z.of_nat (length shape) \/ Z.of_nat (length shape) <= axis)%Z ->
+  chunk_selectors shape b axis = None.
+Proof. exact chunk_selectors_axis_rejected. Qed.
+
+(* non-vacuity: a (2, 5, 3) array cut along its interior axis, spelled -2, blocks of 2:
+   what the code writes, what it selects, the rejected spellings *)
+Example nd_raw_example :
+  raw_selectors 3 1 5 2 =
+  [[Sl colon; Sl (Some 0, Some 2); Dots]; [Sl colon; Sl (Some 2, Some 4); Dots];
+   [Sl colon; Sl (Some 4, Some 6); Dots]].
+Proof. vm_compute. reflexivity. Qed.
+
+Example nd_selectors_example :
+  chunk_selectors [2; 5; 3] 2 (-2) =
+  Some [[(0,2); (0,2); (0,3)]; [(0,2); (2,4); (0,3)]; [(0,2); (4,5); (0,3)]]
+  /\ chunk_selectors [2; 5; 3] 2 1 = chunk_selectors [2; 5; 3] 2 (-2)
+  /\ chunk_selectors [2; 5; 3] 2 (-1) = Some [[(0,2); (0,5); (0,2)]; [(0,2); (0,5); (2,3)]]
+  /\ chunk_selectors [2; 5; 3] 2 (-3) = Some [[(0,2); (0,5); (0,3)]]
+  /\ chunk_selectors [2; 5; 3] 2 3 = None /\ chunk_selectors [2; 5; 3] 2 (-4) = None
+  /\ chunk_selectors [2; 5; 3] 0 (-2) = None.
+Proof. vm_compute. repeat split; reflexivity. Qed.
+
+Example nd_partition_example :
+  option_map (flat_map box_cells) (chunk_selectors [2; 3; 2] 2 (-2)) =
+  Some [[0;0;0]; [0;0;1]; [0;1;0]; [0;1;1]; [1;0;0]; [1;0;1]; [1;1;0]; [1;1;1];
+        [0;2;0]; [0;2;1]; [1;2;0]; [1;2;1]]
+  /\ length (index_space [2; 3; 2]) = 12.
+Proof. vm_compute. split; reflexivity. Qed.
